@@ -17,13 +17,17 @@ def parse(path):
             rules = sorted(set(re.findall(r'rule=(\S+)', c)))
             out.setdefault(mid, {})[name] = rules if v else None
     return out
-final = parse(f"{M}/eval.log")
+final = parse(f"{M}/eval_final88.log")
+for _k, _v in parse(f"{M}/eval.log").items():
+    final.setdefault(_k, {}).update(_v)
 earlier = {}
 for f in ("eval_wave2a.log", "eval_wave2b.log"):
     for k, v in parse(f"{M}/{f}").items():
         for c, r in v.items():
             earlier.setdefault(k, {}).setdefault(c, r)
 skip = {"C06-2": "neutralised: fix f8ec028 (RawRecords rejects a record that ends beyond the file) makes the changed code path unreachable; the demonstration passes with the change on the current tree",
+        "C04-2": "neutralised for its demonstration by fix 4cc10ed (a failed index dump no longer empties the in-memory index): the demonstration passes with the change on the final tree; the identical change is kept as C13c-2, whose demonstration (index never dumped) still fails",
+        "C08b-2": "neutralised for its demonstration by fix 032be71 (no O_APPEND on reopened blobs: concurrent appenders no longer interleave): the demonstration passes with the change on the final tree; the identical change is kept as C03b-1 and C06b-1",
         "C05b-1": "not confirmed: its timing-based demonstration did not fail under tools/verify_mutant.sh; the same change is kept as C14b-2 and C07b-1"}
 kept = []
 for d in sorted(os.listdir(M)):
@@ -37,7 +41,7 @@ for d in sorted(os.listdir(M)):
         os.makedirs(dst, exist_ok=True)
         shutil.copy(f"{M}/{d}/patch{n}.diff", f"{dst}/patch.diff")
         shutil.copy(f"{M}/{d}/demo{n}.rs", f"{dst}/demo.rs")
-        for a, b in ((f"notes{n}.md", "notes.md"), (f"verify{n}.log", "verify.log")):
+        for a, b in ((f"notes{n}.md", "notes.md"), (f"verify{n}.log", "verify.log"), (f"patch{n}.orig.diff", "patch.orig.diff"), (f"demo{n}.orig.rs", "demo.orig.rs")):
             if os.path.exists(f"{M}/{d}/{a}"): shutil.copy(f"{M}/{d}/{a}", f"{dst}/{b}")
         own = d.rstrip('bc')
         res = dict(earlier.get(mid, {})); res.update(final.get(mid, {}))
@@ -54,6 +58,10 @@ for d in sorted(os.listdir(M)):
             "rules_fired": caught,
             "run_but_not_caught_by": sorted(missed),
         }
+        if os.path.exists(f"{M}/{d}/patch{n}.orig.diff"):
+            meta["ported"] = "patch.diff is the same change re-made on the tree that contains the later repairs (the code around it changed); patch.orig.diff is what the agent delivered; re-confirmed with tools/verify_mutant.sh"
+        if os.path.exists(f"{M}/{d}/demo{n}.orig.rs"):
+            meta["demo_adjusted"] = "demo.rs differs from demo.orig.rs by one removed assertion that contradicted a later repair (see the comment in demo.rs); re-confirmed with tools/verify_mutant.sh"
         json.dump(meta, open(f"{dst}/meta.json", "w"), indent=1)
         kept.append((mid, own, sorted(caught), sorted(missed)))
 json.dump({"not_kept": skip}, open("/verif/seeded/NOT_KEPT.json", "w"), indent=1)
